@@ -133,7 +133,7 @@ func (m *c12mctx) opCall(x *ast.CallExpr) {
 		m.replace("13-call-nonfunc/"+kind, x.Fun, "total")
 	}
 	// using a call without result as a value
-	if sig.Results().Len() == 1 && sig.Params().Len() == 1 && isIntT(sig.Params().At(0).Type()) && kind == "src" {
+	if sig.Results().Len() == 1 && sig.Params().Len() == 1 && c12isIntT(sig.Params().At(0).Type()) && kind == "src" {
 		if _, ok := m.parent(1).(*ast.ExprStmt); !ok {
 			m.replace("15-novalue-as-value", x, "noresult(1)")
 		}
@@ -321,14 +321,14 @@ func (m *c12mctx) opAssign(x *ast.AssignStmt) {
 			if repl, tag := c12wrongFor(lt); repl != "" {
 				m.replace("09-opassign/"+tok+"/"+c12class(lt)+"<-"+tag, x.Rhs[0], repl)
 			}
-			if isFloatT(lt) || isStringT(lt) {
+			if c12isFloatT(lt) || isStringT(lt) {
 				m.splice("03-opassign-intop/"+c12class(lt), m.off(x.TokPos), m.off(x.TokPos)+len(tok), "%=")
 			}
 		}
 		// 32: assignment to a constant, to a call, to a literal
 		if x.Tok != token.DEFINE {
 			lt := m.typeOf(x.Lhs[0])
-			if isIntT(lt) && !isUntypedT(lt) && c12class(lt) == "int" {
+			if c12isIntT(lt) && !c12isUntypedT(lt) && c12class(lt) == "int" {
 				m.replace("32-assign-to-const/"+tok, x.Lhs[0], "Limit")
 				m.replace("32-assign-to-call/"+tok, x.Lhs[0], "single()")
 				m.replace("32-assign-to-literal/"+tok, x.Lhs[0], "7")
